@@ -44,7 +44,11 @@ func vLetter() string {
 
 // vFieldName: the kinds of names that matter to writeFields.
 func vFieldName() string {
-	switch zzverif.Choice(6) {
+	switch zzverif.Choice(8) {
+	case 6:
+		return "message" // a part under the default names, an ordinary field once the part is renamed
+	case 7:
+		return "msg"
 	case 0:
 		return vLetter()
 	case 1:
@@ -100,6 +104,11 @@ func vRenderRef(name string, v interface{}) string {
 
 func VH_C16_fields_default_order() {
 	vSetOther()
+	if zzverif.Choice(2) == 1 {
+		// the names of the parts are globals an application may set at any time: the current ones
+		// decide what is a part (and a field literally named "message" is then an ordinary field)
+		MessageFieldName, LevelFieldName = "msg", "lvl"
+	}
 	evt := map[string]interface{}{}
 	n := zzverif.Choice(zzverif.Param("fields", 3) + 1)
 	for i := 0; i < n; i++ {
